@@ -103,10 +103,10 @@ struct WorkAdapter {
 template <class A>
 std::string run_impl(const Scenario &s, CaseInfo &info) {
   for (auto &e : g_sched) e = SchedEntry();
-  int mn = 0, mx = 1; uint64_t seed = 1; bool final_quiesce = false;
+  int mn = 0, mx = 1; uint64_t seed = 1; bool final_quiesce = false, try_zero = false;
   size_t first = 0;
   for (auto &op : s.ops) {
-    if (op.code == CFG) { int k = (int)op.in(0, 0, 5); mn = kMinMax[k][0]; mx = kMinMax[k][1]; seed = (uint64_t)op.in(1, 1, 1 << 30); final_quiesce = op.in(2, 0, 1) == 1; }
+    if (op.code == CFG) { int k = (int)op.in(0, 0, 5); mn = kMinMax[k][0]; mx = kMinMax[k][1]; seed = (uint64_t)op.in(1, 1, 1 << 30); final_quiesce = (op.in(2, 0, 3) & 1) == 1; try_zero = (op.in(2, 0, 3) & 2) != 0; }
     else if (op.code == SCHED) { auto &e = g_sched[op.in(0, 0, kNPoints - 1)]; e.permille = (unsigned)op.in(1, 0, 1000); e.delay_us = (unsigned)op.in(2, 0, 1500); }
   }
   if (!A::kIsPool) { mn = mx = 1; }
@@ -129,12 +129,24 @@ std::string run_impl(const Scenario &s, CaseInfo &info) {
   int epoch = 0; bool ready = false; int cur_max = mx, max_allowed = mx;
   uint64_t cleanup_end_stamp[64] = {0};
   bool nt_query_overlap = false, nt_cleanup_mixed = false, prio_mix = false;
-  int n_status = 0, n_cancel = 0, n_cancel_ok = 0, n_throwing = 0;
+  int n_status = 0, n_cancel = 0, n_cancel_ok = 0, n_throwing = 0; bool tried_zero = false;
   {
     A a(loop);
     tbox::verif::SchedPointHookRef().store(&sched_hook);
-    ready = a.init(mn, mx);
-    if (!ready) { err = "initialize() refused a valid (min,max)"; }
+    // degenerate configuration first: a pool that may not have any worker.  The header demands max > 0 and the unmodified code refuses it;
+    // whatever initialize() answers, a task the pool ACCEPTS must be executed - so if (0,0) is accepted, a probe task has to run
+    if (A::kIsPool && try_zero) {
+      tried_zero = true;
+      if (a.init(0, 0)) {
+        auto ran = std::make_shared<std::atomic<bool>>(false);
+        auto tk = a.exec([ran] { *ran = true; }, [] {}, false, 0, nullptr);
+        if (!tk.isNull()) { int64_t dl = steady_ms() + 3000; while (!ran->load() && steady_ms() < dl) std::this_thread::sleep_for(std::chrono::microseconds(200));
+          if (!ran->load()) err = "TIMING: initialize(0, 0) succeeded, execute() accepted a task, and the task was not executed within 3 s (a pool whose maximum is 0 can never create a worker)"; }
+        a.cleanup();
+      }
+    }
+    if (err.empty()) { ready = a.init(mn, mx);
+    if (!ready) { err = "initialize() refused a valid (min,max)"; } }
 
     auto do_cleanup = [&] {
       // mark what is still queued; gate bodies are released by cleanup_started so that cleanup can join them
@@ -313,6 +325,7 @@ std::string run_impl(const Scenario &s, CaseInfo &info) {
   { bool any_alt = false; for (int i = 0; i < sh.n; ++i) if (sh.t[i].on_alt_loop && sh.t[i].cb_count.load()) any_alt = true; info.cls_if(any_alt, "callback_on_explicit_second_loop"); }
   info.cls_if(n_cancel_ok > 0, "cancel_succeeded");
   info.cls_if(n_throwing > 0, "task_body_ends_by_throwing");
+  info.cls_if(tried_zero, "initialize_with_maximum_0_tried_first");
   info.cls_if(g_sched_hits.load() > 0, "sched_point_delay_applied");
   info.cls_if(sh.max_running.load() >= 2, "bodies_in_parallel");
   info.nontrivial = sh.n > 0 && (nt_query_overlap || nt_cleanup_mixed || (order_checked && prio_mix) || (epoch > 0 && n_cancel_ok > 0));
@@ -335,7 +348,7 @@ rc::Gen<Scenario> gen_common(bool pool) {
     {pool ? 1 : 0, mkop(CLEANUP, {})},
     {pool ? 1 : 0, mkop(INIT, {range(0, 5)})},
   });
-  auto cfg = mkop(CFG, {range(0, 5), range(1, 1 << 30), range(0, 1)});
+  auto cfg = mkop(CFG, {range(0, 5), range(1, 1 << 30), rc::gen::weightedOneOf<int64_t>({{4, range(0, 1)}, {1, range(2, 3)}})});
   auto pt = pool ? range(0, 3) : range(4, 6);
   auto sched = mkop(SCHED, {pt, oneOfValues({0, 100, 500, 1000}), oneOfValues({0, 20, 200, 1200})});
   return scenarioOf(fixedOps({cfg, sched, sched, sched}), opsOf(opg));
